@@ -155,6 +155,12 @@ Definition merge (now : Z) (cfg : list key) (ksk : kmap) (tombs : tmap) : kmap *
 Definition trusted_keys (ksk : kmap) : list key :=
   map (fun e => ta_key (snd e)) (filter (fun e => is_trusted_st (snd e)) ksk).
 
+(* finalRootKeys (repaired code): Valid|Missing anchors whose key material is not tombstoned — a
+   revocation accepted in this very run withholds EVERY entry of that material (the same public key
+   filed under another flags value / tag), not only from the next run's precedence pass on *)
+Definition published (ksk : kmap) (tombs : tmap) : list key :=
+  trusted_keys (filter (fun e => negb (mem (ta_mat (snd e)) tombs)) ksk).
+
 (* dnssec.VerifyRRSIGWithWork restricted to one DNSKEY RRset at the root:
    some RRSIG is valid and its key tag selects, in the supplied key map, a key
    of the signing material that is usable (ZONE flag; tag equality is how the
@@ -291,7 +297,7 @@ Definition tail (live1 : list key) (d : disk) (fl : faults) (s : pst) : result :
   let ws := (if tomb_ok then [WTomb (p_tombs s)] else []) ++ (if state_ok then [WState ksk5] else []) in
   let live' := if negb tomb_ok && negb state_ok
                then (if p_newrev s then [] else live1)
-               else trusted_keys ksk5 in
+               else published ksk5 (p_tombs s) in
   mk_result live' (apply_writes d ws) ws
             (if tomb_ok && state_ok then OSuccess else OPersistence) (p_revs s).
 
